@@ -7,6 +7,7 @@ import (
 	"fmt"
 	"math/big"
 	"sort"
+	"sync/atomic"
 	"time"
 
 	"github.com/Factom-Asset-Tokens/factom"
@@ -22,8 +23,9 @@ import (
 )
 
 func (d *Pegnetd) GetCurrentSync() uint32 {
-	// Should be thread safe since we only have 1 routine writing to it
-	return d.Sync.Synced
+	// Only the sync routine writes to it, and it publishes a height once
+	// that height is committed
+	return atomic.LoadUint32(&d.Sync.Synced)
 }
 
 // DBlockSync iterates through dblocks and syncs the various chains
@@ -118,12 +120,12 @@ OuterSyncLoop:
 				continue OuterSyncLoop
 			}
 
-			// Bump our sync, and march forward
+			// Bump our sync, and march forward. The new height is published to
+			// the readers of d.Sync only when the block is committed.
 
-			d.Sync.Synced++
-			err = d.Pegnet.InsertSynced(tx, d.Sync)
+			next := pegnet.BlockSync{Synced: d.Sync.Synced + 1}
+			err = d.Pegnet.InsertSynced(tx, &next)
 			if err != nil {
-				d.Sync.Synced--
 				hLog.WithError(err).Errorf("unable to update synced metadata")
 				err = tx.Rollback()
 				if err != nil {
@@ -135,13 +137,14 @@ OuterSyncLoop:
 
 			err = tx.Commit()
 			if err != nil {
-				d.Sync.Synced--
 				hLog.WithError(err).Errorf("unable to commit transaction")
 				err = tx.Rollback()
 				if err != nil {
 					// TODO evaluate if we can recover from this point or not
 					hLog.WithError(err).Fatal("unable to roll back transaction")
 				}
+			} else {
+				atomic.StoreUint32(&d.Sync.Synced, next.Synced)
 			}
 
 			elapsed := time.Since(start)
